@@ -43,21 +43,22 @@ Proof. unfold vlen. repeat match goal with |- context [if ?c then _ else _] => d
 
 Lemma full_budget_fits sid0 off : 0 < max_data_len sid0 off ssMaxPacketBufferSize.
 Proof.
-  unfold max_data_len, ssMaxPacketBufferSize, offLen.
   pose proof (vlen_le8 sid0). pose proof (vlen_le8 off).
-  set (h := 1 + vlen sid0 + (if off =? 0 then 0 else vlen off) + 1).
-  assert (Hh : 2 <= h <= 18) by (subst h; destruct (off =? 0); lia).
-  clearbody h. destruct (Z.gtb_spec h 1452); [lia|].
-  destruct (vlen (1452 - h) =? 1); lia.
+  pose proof (max_data_len_spec sid0 off ssMaxPacketBufferSize) as [_ B]. cbn zeta in B.
+  assert (Hh : 2 <= 1 + vlen sid0 + offLen off + 1 <= 18) by (unfold offLen; destruct (off =? 0); lia).
+  set (h := 1 + vlen sid0 + offLen off + 1) in *. clearbody h. unfold ssMaxPacketBufferSize in *.
+  destruct (B ltac:(lia)) as [R1 R2]. destruct (R2 ltac:(unfold maxVarInt8; lia)) as [_ R3].
+  set (r := max_data_len sid0 off 1452) in *. clearbody r.
+  destruct (Z.lt_ge_cases 0 r) as [|Le]; [assumption|exfalso].
+  specialize (R3 (1452 - h - 1) ltac:(lia)).
+  assert (vlen (1452 - h - 1) = 2).
+  { unfold vlen, maxVarInt1, maxVarInt2. destruct (Z.leb_spec (1452 - h - 1) 63); [lia|].
+    destruct (Z.leb_spec (1452 - h - 1) 16383); lia. }
+  lia.
 Qed.
 
 Lemma mdl_le_budget sid0 off mb : max_data_len sid0 off mb <= Z.max 0 mb.
-Proof.
-  unfold max_data_len. pose proof (vlen_le8 sid0). 
-  assert (0 <= offLen off) by (unfold offLen; pose proof (vlen_le8 off); destruct (off =? 0); lia).
-  destruct (Z.gtb_spec (1 + vlen sid0 + offLen off + 1) mb); [lia|].
-  destruct (_ =? 1); lia.
-Qed.
+Proof. apply max_data_len_le. Qed.
 
 (* the flow-control counters through popNewStreamFrame and the tail of popStreamFrame *)
 Lemma popNew_fc mb mdl s : let s1 := fst (fst (popNewStreamFrame mb mdl s)) in
